@@ -571,6 +571,22 @@ func (x *Exec) makeInterface(st *State, v *Value, from, to types.Type) *Value {
 	tag := x.typeTag(from)
 	switch v.K {
 	case KPtr:
+		if v.P.Cell == nil && (v.P.Elem || len(v.P.Path) > 0) {
+			// interior pointer: the interface payload is a reference determined by (object, path);
+			// the Go-side pointer is kept for devirtualisation and for the json model
+			args := []*Term{v.P.Base}
+			if v.P.Idx != nil {
+				args = append(args, v.P.Idx)
+			}
+			for _, pe := range v.P.Path {
+				if pe.Idx != nil {
+					args = append(args, pe.Idx)
+				}
+			}
+			ref := x.ctx.App("interior$"+sanitize(canonKey(v.P.ObjT))+"$"+sanitize(pathString(v.P.Path)), RefSort, args...)
+			x.facts = append(x.facts, Implies(Neq(v.P.Base, x.null()), Neq(ref, x.null())))
+			return &Value{K: KIface, T: to, Tag: tag, IRef: ref, Boxed: v}
+		}
 		return &Value{K: KIface, T: to, Tag: tag, IRef: ptrAsRef(v.P), Boxed: v}
 	}
 	if v.K == KScalar && v.Term.Sort.Kind == SRef {
